@@ -183,6 +183,12 @@ def build_reused(cls, params, x, NFFT=None, fs=1.0, scale=False, salt=0):
     obj.scale_by_freq = scale
     if NFFT == 'nextpow2':
         obj.NFFT = 'nextpow2'
+    if salt % 4 == 3:
+        # ... and, on every fourth history, the estimate is computed, viewed in another layout and computed again by
+        # an explicit call before the caller reads it
+        _ = obj.psd
+        obj.sides = 'centerdc'
+        obj()
     return obj
 
 
